@@ -5,7 +5,8 @@ logarithms): err = target - ln(power) - 2g; g += err / R with R = 1/t_rise when 
 limit ln(max_gain) is enforced every sample.  MC (centi-neper grid, every level/target combination, arbitrary level
 switches): loop state and applied gain never exceed the limit, no overshoot, and under a constant level the loop settles
 within one step's truncation of the needed gain or at the limit (liveness under WF).  Vacuity guard: with the limit
-enforced once per frame ("hoisted") TLC refutes StateBounded.  Conformance (Trace_AgcLoop): real Agc objects with
+enforced once per frame ("hoisted") TLC refutes StateBounded.  Apalache (spec/apalache/AgcInd.tla): for ARBITRARY integer
+levels, targets, limits and step sizes the per-sample limit is an inductive invariant; hoisted, it is not.  Conformance (Trace_AgcLoop): real Agc objects with
 averaging length 1 (power estimate = |x|^2 + eps), step sizes 1/20..1/500, 4..12 frames of 1..160 samples of constant
 magnitude 1e-4..100 or digital silence each; TLC runs the fixed-point loop from ITS OWN state over every frame and accepts
 the ln of the gain applied to the frame's last sample within 400 micro-nepers (0.04 %); near the rise/fall boundary either
@@ -23,6 +24,17 @@ def check(run, tier, seed, replay=None, only=None):
     if replay is not None:
         raise core.InfraError("replay for X03: re-run bin/check X03 --seed %s" % replay.get("seed"))
     exe = core.build_driver("dyn_drv", "rel")
+    # unbounded complement: the per-sample limit is an INDUCTIVE invariant for arbitrary integer levels, targets, limits and
+    # step sizes (Apalache); with the limit hoisted to the frame end it is not
+    import os
+    ind = os.path.join(core.SPEC, "apalache", "AgcInd.tla")
+    apa = core.parallel([lambda: core.apalache(ind, "IndInv", init="IndInit", cinit="CInit"),
+                         lambda: core.apalache(ind, "IndInv", init="IndInit", cinit="CInit", next_="HoistedNext")])
+    run.extra["apalache_inductive"] = {"IndInv /\\ Next => IndInv'": apa[0], "hoisted variant (must be violated)": apa[1]}
+    if apa[0] != "ok":
+        run.violation({"e": "Apalache", "results": apa}, "the per-sample limit is not inductive: %s" % apa)
+    if apa[1] != "violated":
+        raise core.InfraError("vacuity guard: Apalache must refute the hoisted limit, got %s" % apa[1])
     mcs = [("MC_AgcLoop.tla", "MC_AgcLoop.cfg"), ("MC_AgcLoop.tla", "MC_AgcLoop_const.cfg")]
     guard = ("MC_AgcLoop.tla", "MC_AgcLoop_hoisted.cfg")
     stages = [("agcloop-%d" % s, ["--mode", "agcloop", "--budget", 40 if quick else 200, "--seed", seed * 100 + s]) for s in range(2 if quick else 6)]
